@@ -17,6 +17,9 @@ static const char *fk_name(int k) {
                               "MPI_File_write_all", "MPI_File_read_at_all", "MPI_File_write_at_all"};
     return (k >= 1 && k <= 9) ? n[k] : "?";
 }
+// explicit-offset and individual-pointer collective transfers of the same direction match each other: PnetCDF deliberately pairs
+// MPI_File_write_at_all with a zero-length MPI_File_write_all (ncmpio_getput_zero_req) and every MPI-IO implementation accepts it
+static int fk_family(int k) { return k == FK_READ_AT_ALL ? FK_READ_ALL : k == FK_WRITE_AT_ALL ? FK_WRITE_ALL : k; }
 struct View { long long disp = 0; std::shared_ptr<TypeObj> etype, ftype; long long fp = 0; std::vector<long long> prefix; };
 struct FSlot { int kind = 0; int arrived = 0, left = 0; std::vector<char> here; std::string first_site; int first_rank = -1; long long sig = -1; };
 struct File {
@@ -45,7 +48,7 @@ static long fcoll_enter(File &f, int me, int kind, long long sig) {
     FSlot &sl = f.slots[s - f.base];
     g->st.fcoll++;
     if (sl.arrived == 0) { sl.kind = kind; sl.first_site = lib_site(); sl.first_rank = cur_rank(); sl.sig = sig; }
-    else if (sl.kind != kind || (sig >= 0 && sl.sig >= 0 && sig != sl.sig)) {
+    else if (fk_family(sl.kind) != fk_family(kind) || (sig >= 0 && sl.sig >= 0 && sig != sl.sig)) {
         char buf[768];
         snprintf(buf, sizeof buf, "rank %d called %s at [%s] but rank %d called %s at [%s] as file collective #%ld on %s",
                  cur_rank(), fk_name(kind), lib_site().c_str(), sl.first_rank, fk_name(sl.kind), sl.first_site.c_str(), s, f.path.c_str());
